@@ -406,6 +406,7 @@ type ackMem struct {
 	unacked  map[string]bool
 	ackSeq   int
 	ackCalls int
+	deqCalls int
 	closed   bool
 }
 
@@ -422,6 +423,12 @@ func (a *ackMem) Enqueue(item any) bool {
 }
 func (a *ackMem) Dequeue() (any, bool) {
 	vrt.Point("wq.Dequeue")
+	a.deqCalls++
+	for _, f := range a.env.c.Faults {
+		if f.Method == "Dequeue" && f.K == a.deqCalls {
+			return nil, false // the adapter comes back empty-handed once
+		}
+	}
 	if len(a.items) == 0 {
 		return nil, false
 	}
